@@ -430,7 +430,8 @@ def gen_case(rng, spec, tier):
         for x in series:
             if rng.random() < 0.75:  # tie-free valid values (the order of imputed values depends on ties, see `ctie`)
                 x[:] = np.array(rng.sample(range(17, 1008), x.size)) / 1024
-            pm = rng.choice([0.0, 0.1, 0.2, 0.3, 0.5, 0.5, 0.7, 0.9, 0.9, 0.97, 1.0])
+            pm = rng.choice([0.0, 0.1, 0.2, 0.3, 0.5, 0.5, 0.7, 0.9] + ([0.97, 1.0] if rng.random() < 0.15 else []))
+            pm = min(pm, 1.0 if rng.random() < 0.03 else 1 - 2.5 / x.size)
             for i in range(x.size):
                 if rng.random() < pm:
                     x[i] = rng.choice([np.nan, np.nan, np.inf, -np.inf])
@@ -450,6 +451,25 @@ def canon(vals, keys):
             for i, v in zip(idx, sv):
                 vals[i] = v
     return vals
+
+
+def impute_keys(x):
+    """canonicalisation keys for step 2: missing positions whose interpolated rank (the code's interp1d of
+    argsort(argsort(valid)) over the positions) is equal receive their values in the sort's arbitrary order"""
+    import scipy.interpolate
+
+    x = np.asarray(x, dtype=float)
+    inv = ~np.isfinite(x)
+    keys = [("v", i) for i in range(x.size)]
+    valid = x[~inv]
+    if inv.any() and valid.size >= 2:
+        f = scipy.interpolate.interp1d(np.where(~inv)[0], np.argsort(np.argsort(valid)), fill_value="extrapolate")
+        for i, v in zip(np.where(inv)[0], f(np.where(inv)[0])):
+            keys[i] = ("i", float(v))
+    elif inv.any():
+        for i in np.where(inv)[0]:
+            keys[i] = ("i", 0.0)
+    return keys
 
 
 def parse_rl(tok):
@@ -513,6 +533,9 @@ def build_case(deb, name, series, ys, seed, case):
     line = (f"window {tok} {spy.sig_bits()}{spy.ks_bit()} {rlo(obs)} {rlo(H)} {rlo(F)} {C.ilist(yO)} {C.ilist(yH)} {C.ilist(yF)} "
             + " ".join(rl(x) for x in d) + f" {rl(spy.cos_in)} {rl(spy.cos_out)} {_tables(spy)}")
     keys = [(float(v), int(y) if sigF else 0) for v, y in zip(F, yF)]
+    if deb.impute_missing_values:
+        ik = impute_keys(F)
+        keys = [k if np.isfinite(v) else (ik[i], k[1]) for i, (k, v) in enumerate(zip(keys, F))]
     pyflags = set(spy.flags)
     if deb.impute_missing_values and any(np.unique(x[np.isfinite(x)]).size != np.isfinite(x).sum() for x in series):
         pyflags.add("ctie2")  # ranks of equal valid values decide where the imputed values go
@@ -530,7 +553,8 @@ def build_case(deb, name, series, ys, seed, case):
                 except Exception as ex:  # noqa: BLE001
                     r2, exc2 = None, type(ex).__name__
             u = s2.random[0] if s2.random else np.array([])
-            exps.append(Expect("step2", f"step2 {tok} {rlo(x)} {rl(u)}", case, out=r2, exc=exc2, pyflags=set(s2.flags), inputs=(x,)))
+            exps.append(Expect("step2", f"step2 {tok} {rlo(x)} {rl(u)}", case, out=r2, exc=exc2, pyflags=set(s2.flags), inputs=(x,),
+                               keys=impute_keys(x)))
             filled.append(r2)
         if any(r is None for r in filled):
             return exps
@@ -613,6 +637,8 @@ def compare(e, got, hist):
     real = [float(v) for v in e.out]
     if e.op in ("step5", "step2"):
         model = parse_rl(toks[1])
+        if e.op == "step2":
+            model, real = canon(model, e.keys), canon(real, e.keys)
         return verdict(close(model, real, scale_of(*e.inputs, real)), f"{e.op}: {worst(model, real)}")
     if e.op == "step6":
         nl, nu, br, pre, model = int(toks[1]), int(toks[2]), toks[3], int(toks[4]), parse_rl(toks[5])
